@@ -45,7 +45,7 @@ def shards(tier, seed):
 
 
 def opts():
-    return gen.Opts(headers=True, multi_headers=True, custom_names=True, services=(1, 3), methods=(1, 4), namespaces=3)
+    return gen.Opts(headers=True, multi_headers=True, custom_names=True, port_types=True, services=(1, 3), methods=(1, 4), namespaces=3)
 
 
 def universe(seed, uid):
@@ -162,13 +162,17 @@ def check_structure(R, root, ir, repro):
     """every exposed method: exactly one portType operation, a binding operation of the same name,
     messages and declared faults."""
     ops = {}
+    op_pt = {}
     for pt in root.findall('{%s}portType' % WSDL):
         for op in pt.findall('{%s}operation' % WSDL):
             ops.setdefault(op.get('name'), []).append(op)
+            op_pt.setdefault(op.get('name'), []).append(pt.get('name'))
     bops = {}
+    bop_pt = {}
     for b in root.findall('{%s}binding' % WSDL):
         for op in b.findall('{%s}operation' % WSDL):
             bops.setdefault(op.get('name'), []).append(op)
+            bop_pt.setdefault(op.get('name'), []).append((b.get('type') or '').split(':')[-1])
     for sd in ir['services']:
         for md in sd['methods']:
             name = md.get('operation_name') or md['name']
@@ -179,6 +183,13 @@ def check_structure(R, root, ir, repro):
                 continue
             if len(bops.get(name, [])) != 1:
                 R.violation('method %s has %d binding operations' % (md['name'], len(bops.get(name, []))), repro, mech='binding_operation_count')
+            elif bop_pt[name] != op_pt[name]:
+                # "matching binding operation": the binding that carries the operation is bound to the portType that declares it
+                R.violation('operation %s is declared in portType %s but bound in a binding of portType %s' % (name, op_pt[name][0], bop_pt[name][0]), repro,
+                            mech='binding_porttype_mismatch')
+            if md.get('port_type') and op_pt[name] != [md['port_type']]:
+                R.violation('method %s declares port type %s, its operation is in portType %s' % (md['name'], md['port_type'], op_pt[name][0]), repro,
+                            mech='operation_in_wrong_porttype')
             op = ops[name][0]
             if op.find('{%s}input' % WSDL) is None or op.find('{%s}output' % WSDL) is None:
                 R.violation('operation %s lacks input/output' % name, repro, mech='operation_messages')
@@ -206,6 +217,26 @@ def check_determinism(R, seed, uid, B, wsdl_bytes, n_procs, repro):
     R.count('determinism_builds')
     if again != wsdl_bytes:
         R.violation('two builds in one process differ: %s' % first_diff(wsdl_bytes, again), repro, mech='nondeterministic_in_process')
+    # build repetition on the same document object (what two transports over one Application do)
+    w2.build_interface_document('http://localhost/')
+    third = w2.get_interface_document()
+    R.count('determinism_builds')
+    if third != wsdl_bytes:
+        R.violation('building the WSDL a second time on the same interface document object changes it: %s' % first_diff(wsdl_bytes, third), repro,
+                    mech='rebuild_on_same_document_differs')
+    # two WSGI transports over one Application serve the same ?wsdl
+    served = []
+    for k in range(2):
+        wa = WsgiApplication(app2)
+        env, inp = drive.make_environ('GET', '/', 'wsdl', b'', None)
+        env['HTTP_HOST'] = 'localhost'
+        r = drive.call_wsgi(wa, env, inp)
+        if r.exc is None and r.code == 200:
+            served.append(r.body)
+    R.count('determinism_builds', len(served))
+    if len(served) == 2 and served[0] != served[1]:
+        R.violation('a second WsgiApplication over the same Application serves a different ?wsdl: %s' % first_diff(served[0], served[1]), repro,
+                    mech='second_transport_serves_other_wsdl')
     mine = hashlib.sha1(wsdl_bytes).hexdigest()
     for hs in range(n_procs):
         env = dict(os.environ, PYTHONHASHSEED=str(hs if hs else 0), PYTHONPATH=core.VERIF, VERIF_REPO=core.REPO)
@@ -324,7 +355,18 @@ def one_zeep_call(R, B, W, S, Z, ir, md, args, rets, repro):
     R.evaluations += 1
     headers = {}
     try:
-        op = getattr(Z.service, opname)
+        svc_proxy = Z.service
+        if md.get('port_type'):
+            # zeep's default proxy is the first port of the first service: bind to the port of this method's port type
+            for sname, sv in Z.client.wsdl.services.items():
+                if md['port_type'] in sv.ports:
+                    svc_proxy = Z.client.bind(sname, md['port_type'])
+        else:
+            for sname, sv in Z.client.wsdl.services.items():
+                for pname, port in sv.ports.items():
+                    if opname in port.binding._operations:
+                        svc_proxy = Z.client.bind(sname, pname)
+        op = getattr(svc_proxy, opname)
         if md.get('in_header'):
             res = op(_soapheaders={h: {} for h in gen.header_names(md, 'in_header')}, **kwargs)
         else:
